@@ -25,13 +25,16 @@ TOWERS = [
 ]
 
 
-def make_config(nt, ns, use_cache=False, repeated_met=False, levels=None, nx=8):
+def make_config(nt, ns, use_cache=False, repeated_met=False, levels=None, nx=8, sweep=False):
     from bldfm.config_parser import parse_config_dict
 
     ustar = [0.30 + 0.07 * i for i in range(ns)]
     wd = [200.0 + 35.0 * i for i in range(ns)]
     if repeated_met and ns >= 2:
         ustar[-1], wd[-1] = ustar[0], wd[0]
+    if sweep:
+        # a series in which only the wind direction varies from record to record
+        ustar = 0.33
     dom = {"nx": nx, "ny": 6, "xmax": 160.0, "ymax": 90.0, "nz": 4, "modes": [8, 6], "halo": 20.0, "ref_lat": 50.0, "ref_lon": 11.0}
     if levels:
         dom["output_levels"] = levels
@@ -304,6 +307,16 @@ def main():
                             chk.violation("run_bldfm_multitower with 4 numerical threads differs from the single run by %.3e at [%s][%d]" % (d, n, s), sc, klass={"check": "serial_threads"})
     # the command-line loop (bldfm run config.yaml): towers outer, steps inner, one single run each, runtime settings applied
     nruns += cli_runs(chk, cfg_cache, ref_cache)
+    # a direction sweep (only wind_dir varies from step to step) and a series with repeated records, cache off
+    for kind, cfgs in (("sweep", make_config(2, 3, sweep=True)), ("repeated", make_config(2, 3, repeated_met=True))):
+        rtcfg.NUM_THREADS = 1
+        refs_s = references(cfgs)
+        for strat in ("serial", "towers", "both"):
+            sc = {"kind": kind, "strategy": strat}
+            chk.case(json.dumps([kind, strat]))
+            res = run_bldfm_multitower(cfgs) if strat == "serial" else run_bldfm_parallel(cfgs, max_workers=2, parallel_over=strat)
+            nruns += 1
+            compare(chk, res, refs_s, cfgs, sc, "%s series, %s" % (kind, strat))
     # result caching on: a directory pre-populated by runs with other levels / another grid must not change anything
     work = os.getcwd()
     shutil.rmtree(os.path.join(work, ".bldfm_cache"), ignore_errors=True)
@@ -333,6 +346,12 @@ def main():
     from . import trace_drivers
 
     trace_drivers.validate(chk, tracefile)
+    if t == "thorough":
+        from . import repo_tests
+
+        tf, tail = repo_tests.record()
+        chk.extra["repo_tests_pytest"] = tail
+        chk.traces += repo_tests.parallel_runs(chk, tf)
     chk.rule = ("TLC explores all interleavings of Drivers.tla for every (towers, steps, workers, strategy, parent threads) in the bounds and emits completion orders; "
                 "each shape is run on the real drivers with delays steering towards up to %d of those orders plus one random delay table; a case is one driver run" % per)
     for k in keys[:: max(1, len(keys) // 3)][:3]:
